@@ -749,6 +749,9 @@ func FunctionMap() map[string]physical.FunctionDetails {
 					OutputType:    octosql.String,
 					Strict:        true,
 					Function: func(values []octosql.Value) (octosql.Value, error) {
+						if values[1].Int < 0 || values[2].Int < 0 {
+							return octosql.ZeroValue, fmt.Errorf("substr start index and length must not be negative, got %d and %d", values[1].Int, values[2].Int)
+						}
 						if int64(len(values[0].Str)) <= values[1].Int {
 							return octosql.NewString(""), nil
 						}
